@@ -230,13 +230,11 @@ func escapeQuotedStringLit(s string) []byte {
             }
         default:
             if !unicode.IsPrint(r) {
-                var fmted string
-                if r < 65536 {
-                    fmted = fmt.Sprintf("\\u%04x", r)
-                } else {
-                    fmted = fmt.Sprintf("\\U%08x", r)
+                // this dialect reads \xHH (one byte each); it has no \u / \U
+                for _, b := range []byte(string(r)) {
+                    fmted := fmt.Sprintf("\\x%02x", b)
+                    buf = append(buf, fmted...)
                 }
-                buf = append(buf, fmted...)
             } else {
                 buf = appendRune(buf, r)
             }
